@@ -228,6 +228,14 @@ def case(ctx, rng, idx):
                     o[(rng.choice(labs),)] = o.get((rng.choice(labs),), 0) + 5
             except Exception:   # noqa
                 pass
+        # ... and edits what the `constraints` accessor handed out (documented as a copy)
+        try:
+            for polys_ in H.constraints.values():
+                for P_ in polys_:
+                    P_ *= 0
+                polys_.append({(): 1})
+        except Exception:   # noqa
+            pass
         ctx.count("operand-edited-afterwards-checks")
         if validity_table(H) != tab_h or dict(H) != terms_h:
             ctx.violation("gate:model-follows-operand-edited-afterwards", "after the caller edited its operand objects in place the model's terms / validity changed", {"history": hist})
